@@ -49,7 +49,7 @@ let outcome_str (o : okind) : string =
 
 let probes_str (t : (nat * nat) list) : string =
   if t = [] then "-" else
-  String.concat "," (List.map (fun (a, b) -> Printf.sprintf "%d.%d" (int_of_nat a) (int_of_nat b)) t)
+  String.concat "," (List.map (fun (a, b) -> Printf.sprintf "%d.%d" (int_of_nat a) (if int_of_nat b = 0 then 0 else 1)) t)
 
 (* "<outcome>:<root numReg>:<env is root><depth is 0><out is session writer>:<probes>" after each input *)
 let session_line (c : cfg) (inputs : skel list) : string =
